@@ -192,3 +192,68 @@ Definition run_exit (c : cfg) (mf : option N) (dbg : bool) (h : list devent) (p 
   | Live d => Some (exit_code (summarize_final (d_stats d)) p)
   | Panicked => None
   end.
+
+(* ---- what C02 says about the emitted stream, as a per-test automaton over revents ---- *)
+
+Inductive ostate :=
+| ONone             (* nothing reported for this test yet *)
+| ORun (k : N)      (* reported started; attempt k in progress *)
+| OWait (k : N)     (* attempt k reported failed-will-retry; retry k+1 not reported started *)
+| ODone             (* reported finished *)
+| OSkip.            (* reported skipped *)
+
+Definition event_tid (e : revent) : option tid :=
+  match e with
+  | ETestStarted t _ _ _ | ETestSlow t _ _ _ | ETestAttemptFailedWillRetry t _
+  | ETestRetryStarted t _ _ | ETestFinished t _ _ _ _ | ETestSkipped t => Some t
+  | _ => None
+  end.
+
+(* attempts numbered i, i+1, ... *)
+Fixpoint numbered_from (i : N) (l : list attempt) : bool :=
+  match l with
+  | [] => true
+  | a :: r => (a_no a =? i) && numbered_from (i + 1) r
+  end.
+
+(* one reported event of a test whose total_attempts is [tot] *)
+Definition ostep (tot : N) (o : ostate) (e : revent) : option ostate :=
+  match e, o with
+  | ETestStarted _ _ _ _, ONone => Some (ORun 1)
+  | ETestSkipped _, ONone => Some OSkip
+  | ETestSlow _ no total _, ORun k => if (no =? k) && (total =? tot) then Some o else None
+  | ETestAttemptFailedWillRetry _ a, ORun k =>
+      if (a_no a =? k) && (k <? tot) && negb (is_success (a_res a)) then Some (OWait k) else None
+  | ETestRetryStarted _ no total, OWait k =>
+      if (no =? k + 1) && (total =? tot) then Some (ORun (k + 1)) else None
+  | ETestFinished _ sts _ _ _, ORun k =>
+      if (st_len sts =? k) && numbered_from 1 (st_all sts) && (k <=? tot) then Some ODone else None
+  | _, _ => None
+  end.
+
+(* the events of test [t] in a stream, run through the automaton *)
+Fixpoint ocheck (tot : N) (t : tid) (o : ostate) (l : list revent) : option ostate :=
+  match l with
+  | [] => Some o
+  | e :: r =>
+      match event_tid e with
+      | Some t' =>
+          if t' =? t then
+            match ostep tot o e with Some o' => ocheck tot t o' r | None => None end
+          else ocheck tot t o r
+      | None => ocheck tot t o r
+      end
+  end.
+
+Definition is_started_of (t : tid) (e : revent) : bool :=
+  match e with ETestStarted t' _ _ _ => t' =? t | _ => false end.
+Definition is_finished_of (t : tid) (e : revent) : bool :=
+  match e with ETestFinished t' _ _ _ _ => t' =? t | _ => false end.
+Definition is_skipped_of (t : tid) (e : revent) : bool :=
+  match e with ETestSkipped t' => t' =? t | _ => false end.
+Definition is_retry_of (t : tid) (k : N) (e : revent) : bool :=
+  match e with ETestRetryStarted t' no _ => (t' =? t) && (no =? k) | _ => false end.
+Definition is_failed_retry_of (t : tid) (k : N) (e : revent) : bool :=
+  match e with ETestAttemptFailedWillRetry t' a => (t' =? t) && (a_no a =? k) | _ => false end.
+
+Definition count_if (f : revent -> bool) (l : list revent) : nat := length (filter f l).
